@@ -269,7 +269,7 @@ fn issue(w: &mut World, step: usize) {
     "@context": "https://www.w3.org/2018/credentials/v1",
     "type": ["VerifiableCredential", "SimCredential"],
     "issuer": p.did,
-    "issuanceDate": ts(issuance).to_rfc3339(),
+    "issuanceDate": crate::core::time::rfc3339(issuance),
     "credentialSubject": {"id": holder_did, "level": step},
   });
   let o = c.as_object_mut().unwrap();
@@ -277,7 +277,7 @@ fn issue(w: &mut World, step: usize) {
     o.insert("id".into(), format!("https://cred.example/{step}").into());
   }
   if let Some(e) = expiry {
-    o.insert("expirationDate".into(), ts(e).to_rfc3339().into());
+    o.insert("expirationDate".into(), crate::core::time::rfc3339(e).into());
   }
   if ctx::chance(1, 12) {
     // structurally defective: lacks the base type
@@ -410,10 +410,10 @@ fn issue_crafted(w: &mut World, step: usize) {
     "vc_expiration_without_exp" => {
       // expired long ago, or still valid: either way the claims are inconsistent (no `exp`)
       let e = if ctx::choose(2) == 0 { now_i - 1000 } else { now_i + 100_000 };
-      claims["vc"]["expirationDate"] = ts(e).to_rfc3339().into();
+      claims["vc"]["expirationDate"] = crate::core::time::rfc3339(e).into();
     }
     "vc_issuer_mismatch" => claims["vc"]["issuer"] = "did:sim:someoneelse".into(),
-    "vc_issuance_mismatch" => claims["vc"]["issuanceDate"] = ts(now_i - 5000).to_rfc3339().into(),
+    "vc_issuance_mismatch" => claims["vc"]["issuanceDate"] = crate::core::time::rfc3339(now_i - 5000).into(),
     "exp_out_of_range" => claims["exp"] = Value::from(1_000_000_000_000_000i64),
     "nbf_and_iat" => {
       // both claims present: the credential is valid from nbf (here in the future), iat (in the past) is only the
@@ -431,7 +431,7 @@ fn issue_crafted(w: &mut World, step: usize) {
       "type": ["VerifiableCredential"],
       "credentialSubject": {"id": "did:sim:subject", "crafted": step},
       "issuer": p.did,
-      "issuanceDate": ts(now_i + 500).to_rfc3339(),
+      "issuanceDate": crate::core::time::rfc3339(now_i + 500),
     })
   } else {
     Value::Null
@@ -697,7 +697,7 @@ enum Move {
 }
 
 fn b64(bytes: &[u8]) -> String {
-  identity_jose::jwu::encode_b64(bytes)
+  crate::core::b64::encode(bytes)
 }
 
 /// Applies a network fault or adversary move to a compact token. `other` is another honest token (for splicing).
@@ -879,8 +879,8 @@ fn validate_credential(w: &mut World, step: usize) {
     ctx::stat("probe.method_id_override");
     vopts = vopts.method_id(DIDUrl::parse(m).unwrap());
   }
-  let issuance = t.truth.get("issuanceDate").and_then(|v| v.as_str()).and_then(|s| Timestamp::parse(s).ok()).map(|t| t.to_unix());
-  let expiry = t.truth.get("expirationDate").and_then(|v| v.as_str()).and_then(|s| Timestamp::parse(s).ok()).map(|t| t.to_unix());
+  let issuance = t.truth.get("issuanceDate").and_then(|v| v.as_str()).and_then(crate::core::time::parse_rfc3339_z);
+  let expiry = t.truth.get("expirationDate").and_then(|v| v.as_str()).and_then(crate::core::time::parse_rfc3339_z);
   // verifier clock: usually global time + skew; sometimes stepped exactly onto a boundary second
   let verifier_skew = ctx::range(-3, 3);
   let mut v_now = w.clock.now + verifier_skew;
@@ -974,7 +974,7 @@ fn validate_credential(w: &mut World, step: usize) {
       let kid = p.header.get("kid").and_then(|k| k.as_str());
       let method_id: Option<String> = match &method_override {
         Some(m) => Some(m.clone()),
-        None => kid.filter(|k| DIDUrl::parse(k).is_ok()).map(str::to_owned),
+        None => kid.filter(|k| super::is_did_url(k)).map(str::to_owned),
       };
       if header_nonce != opt_nonce.as_deref() {
         pre = Some("JwsDecodingError");
@@ -1075,8 +1075,8 @@ fn validate_credential(w: &mut World, step: usize) {
     truth_cred = w.creds.iter().find(|c| c.s.split('.').nth(1) == Some(pl.as_str()));
     if let Some(tc) = truth_cred {
       let c = &tc.truth;
-      let iss_d = c.get("issuanceDate").and_then(|v| v.as_str()).and_then(|s| Timestamp::parse(s).ok()).map(|t| t.to_unix()).unwrap_or(0);
-      let exp_d = c.get("expirationDate").and_then(|v| v.as_str()).and_then(|s| Timestamp::parse(s).ok()).map(|t| t.to_unix());
+      let iss_d = c.get("issuanceDate").and_then(|v| v.as_str()).and_then(crate::core::time::parse_rfc3339_z).unwrap_or(0);
+      let exp_d = c.get("expirationDate").and_then(|v| v.as_str()).and_then(crate::core::time::parse_rfc3339_z);
       let latest = explicit_latest_issuance.unwrap_or(v_now);
       let earliest = explicit_earliest_expiry.unwrap_or(v_now);
       if iss_d > latest {
